@@ -24,7 +24,7 @@ func TestMain(m *testing.M) {
 var st = stats.New("delivery")
 
 func prop(t *rapid.T) {
-	sc := dagen.GenScenario(t, 2, dagen.Params{MinEvents: 30, MaxEvents: 130, Forks: dagen.MinorityFork, NonMaxFrames: true})
+	sc := dagen.GenScenario(t, 2, dagen.Params{MinEvents: 30, MaxEvents: 130, Forks: dagen.MinorityFork, NonMaxFrames: true, LongEpochs: true})
 	cfgs := cons.Configs()
 	cfg := cfgs[rapid.IntRange(0, len(cfgs)-1).Draw(t, "cfg")]
 	in, err := cons.New(cons.NewEvents(), cfg, idx.Epoch(sc.FirstEpoch), sc.Epochs[0].Ref.Validators(), scen.SealFn(sc))
@@ -114,6 +114,12 @@ func prop(t *rapid.T) {
 	}
 	if totalBlocks == 0 {
 		classes = append(classes, "no_block")
+	}
+	for _, b := range in.Blocks {
+		if b.Frame > 256 {
+			classes = append(classes, "epoch_with_more_than_256_blocks")
+			break
+		}
 	}
 	st.Case(stats.Hash(scen.DescribeScenario(sc)), nontrivialBlocks > 0, classes...)
 	st.Class("blocks", int64(totalBlocks))
